@@ -334,6 +334,7 @@ type Style struct {
 	Infix         bool     // render binary arithmetic/comparison calls on atoms as { a op b }
 	NoTCO         bool     // render every call whose callee is a plain symbol f as ((begin f) ..): never a self tail call
 	NoAppendAlias bool     // render (append a v) as (appendslice (appendslice [] a) [v]): no shared backing array
+	NoConcatAlias bool     // kept for importers (C05/C09/C16); no twin uses it since concat-aliasing was fixed in /repo. Renders (concat a ..) as (concat (appendslice [] a) ..)
 }
 
 type renderer struct {
@@ -429,6 +430,19 @@ func (n *Node) render(r *renderer) {
 			r.t(f.Name)
 			n.Kids[2].render(r)
 			r.t("}")
+			return
+		}
+		if r.st.NoConcatAlias && f.K == KVar && f.Name == "concat" && len(n.Kids) >= 2 {
+			r.t("(")
+			r.t("concat")
+			r.t("(")
+			r.t("appendslice")
+			r.t("[")
+			r.t("]")
+			n.Kids[1].render(r)
+			r.t(")")
+			all(n.Kids[2:])
+			r.t(")")
 			return
 		}
 		if r.st.NoAppendAlias && f.K == KVar && f.Name == "append" && len(n.Kids) == 3 {
